@@ -1065,6 +1065,9 @@ class Rewriter:
             if i['action'] in {'modify', 'rm'}:
                 remove_node(i)
             elif i['action'] == 'add':
+                # The file may not end with a newline
+                if files[T.cast(str, i['file'])]['raw'] and not files[T.cast(str, i['file'])]['raw'].endswith('\n'):
+                    files[T.cast(str, i['file'])]['raw'] += '\n'
                 files[T.cast(str, i['file'])]['raw'] += T.cast(str, i['str']) + '\n'
 
         # Write the files back
